@@ -1,6 +1,7 @@
 import Mdsort.Bytes
 import Mdsort.Model.Decode
 import Mdsort.Spec.Decode
+import Mdsort.Spec.DecodeRFC
 import Mdsort.Model.Header
 import Mdsort.Model.Mime
 import Mdsort.Model.MimeEntity
@@ -905,6 +906,18 @@ def handle (side op : String) (args : List String) : String :=
   | "M", "b64n", some [s, n] => optHex (Model.b64pton s n.length)
   | "M", "r2047", some [s] => toHex (Model.rfc2047Decode s)
   | "S", "r2047", some [s] => toHex (cstr (Spec.rfc2047 s))
+  -- C16, RFC readings (Spec/DecodeRFC.lean): the `S` side answers only on the domain of C16_qp_vs_rfc /
+  -- C16_rfc2047_vs_rfc (NOTWF elsewhere); the `...all` / `r2047pw` ops evaluate the RFC readings on any input
+  | "M", "qprfc", some [s] => toHex (Model.qpDecode s)
+  | "S", "qprfc", some [s] => if Spec.QpLFOnly s then toHex (cstr (Spec.qpRFC false s)) else "NOTWF"
+  | "M", "qphrfc", some [s] => toHex (Model.qpLoop true s [])
+  | "S", "qphrfc", some [s] => if Spec.QpLFOnly s then toHex (Spec.qpRFC true s) else "NOTWF"
+  | "M", "r2047rfc", some [s] => toHex (Model.rfc2047Decode s)
+  | "S", "r2047rfc", some [s] => if Spec.WellFormed2047 s then toHex (cstr (Spec.rfc2047RFC s)) else "NOTWF"
+  | "S", "qprfcall", some [s] => toHex (cstr (Spec.qpRFC false s))
+  | "S", "qphrfcall", some [s] => toHex (Spec.qpRFC true s)
+  | "S", "r2047rfcall", some [s] => toHex (cstr (Spec.rfc2047RFC s))
+  | "S", "r2047pw", some [s] => toHex (cstr (Spec.rfc2047PerWord s))
   | "S", "eval", some as => handleSpecEval as
   | "S", "hcond", some as => handleSpecHcond as
   | "S", "evalatt", some as => handleSpecEvalAtt as
